@@ -441,18 +441,44 @@ class FnTags(object):
         return merge_pos(seen)
 
 
+MEMOISERS = ('functools.lru_cache', 'functools.cache', 'functools.cached_property')
+
+
+def is_memoised(module, fnode):
+    """the function is wrapped by a memoising decorator of the standard library (possibly imported under another name): whatever it returns is
+    kept in a hidden table and handed out again to every later caller with equal arguments"""
+    for dec in getattr(fnode, 'decorator_list', []):
+        f = dec.func if isinstance(dec, ast.Call) else dec
+        if isinstance(f, ast.Name):
+            origin = module.imports.get(f.id, f.id)
+        elif isinstance(f, ast.Attribute) and isinstance(f.value, ast.Name):
+            origin = module.imports.get(f.value.id, f.value.id) + '.' + f.attr
+        else:
+            continue
+        if origin in MEMOISERS or origin.split('.')[-1] in ('lru_cache',):
+            return True
+    return False
+
+
 def analyse_module(module):
     shared = shared_containers(module)
     fns = dict((name, fi.node) for name, fi in module.functions.items())
     summaries = dict((n, set()) for n in fns)
     summaries_pos = {}
     top = {}
+    memoised = set(n for n, node in fns.items() if is_memoised(module, node))
     for _ in range(5):
         changed = False
         for name, node in fns.items():
             ft = FnTags(module, node, shared, summaries, summaries_pos, None, name)
             top[name] = ft
             rp = ft.ret_pos()
+            if name in memoised:
+                # the result (and each element of a returned tuple) lives on in the decorator's table: an element of shared state
+                tag = 'sharedelem:@memo(%s)' % name
+                ft.ret = set(ft.ret) | set([tag])
+                if rp is not None:
+                    rp = [set(x) | set([tag]) for x in rp]
             if ft.ret != summaries[name] or summaries_pos.get(name, 'unset') != rp:
                 summaries[name] = set(ft.ret)
                 summaries_pos[name] = rp
